@@ -599,7 +599,9 @@ def ctx_honoured(rep, F, E, fns, rule='PROV-CTX', allow_mirror=False):
                         problems.append('precision of the forwarded context derives from %s' % short(precision))
                 elif kind == 'mode':
                     srcs = pv.all()
-                    if not srcs or not all(s == P_CTX + '.rounding' or s == P_CTX for s in srcs):
+                    own = {s for s in srcs if s == P_CTX + '.rounding' or s == P_CTX}
+                    # a mirrored Floor/Ceiling literal beside the caller's own mode is the mirror dispatch, whose table is checked exactly
+                    if not own or not (srcs == own or (allow_mirror and srcs - own == MIRROR)):
                         problems.append('mode argument sources %s (must be ctx.rounding)' % short(srcs))
                 elif kind == 'rdata':
                     mode = pv.f.get('mode', pv.all())
